@@ -261,6 +261,9 @@ def check_C03(tier, seed):
     run_lex(v, exe, cfgs(tier, ["lex_dq_quick.cfg", "lex_dqesc_quick.cfg", "lex_octal_quick.cfg", "lex_sq_quick.cfg", "lex_comment4_quick.cfg",
                                 "lex_dqenv_quick.cfg", "lex_env_quick.cfg", "lex_slash_quick.cfg"],
                          ["lex_dq_thorough.cfg", "lex_sq_thorough.cfg", "lex_comment_quick.cfg"]), seed, "C03")
+    # strings on the growth steps of the scanner's scratch buffer (lengths the bounded model cannot hold literally)
+    from . import stress
+    stress.run(v, exe, tier, tag="C03steps", only=("buffer-steps",))
     v.cov["exhaustive"] = True
     return v.finish(rule="every byte string up to the length bound over the class representatives of each start condition "
                          "(double-quoted, single-quoted, comment), embedded as 's=\"...' / 's=\\'...' / '/*...'; environment: one variable "
